@@ -92,3 +92,43 @@ Proof.
   apply view_eq_inv in V1. destruct V1 as (Vc & Vn & _). unfold view_of in V. inv V.
   repeat split; cbn; congruence.
 Qed.
+
+Lemma update_and_rearm_norep' s k r c s' ev : update_and_rearm s k r c = (s', ev) -> rinfos ev = [].
+Proof. apply update_and_rearm_norep. Qed.
+
+Lemma lock_step_queued s conn c s' ev w :
+  lock_step s conn c = (s', ev, w) -> core_cmd c -> rinfos ev = [] -> (forall x, wref s x -> x < next s) ->
+  exists l', aget (store s') (next s) = Some l' /\ l_ack l' = 255 /\ c_req (l_cmd l') = c_req c /\ l_timeouted l' = false.
+Proof.
+  intros H Hcore HR Hw. assert (Hcore0 := Hcore). destruct Hcore as (Hack & Hms & Hems & Hdata).
+  unfold lock_step in H. cbv beta zeta in H.
+  set (k := c_key c) in *.
+  match type of H with context [if has (c_flag c) LOCK_FLAG_SHOW then ?a else c] =>
+    set (c1 := if has (c_flag c) LOCK_FLAG_SHOW then a else c) in H end.
+  assert (Hc1 : c_req c1 = c_req c /\ c_tflag c1 = c_tflag c /\ c_eflag c1 = c_eflag c /\ c_data c1 = c_data c
+                /\ c_key c1 = c_key c).
+  { subst c1. destruct (has (c_flag c) LOCK_FLAG_SHOW); cbn; auto. }
+  clearbody c1. destruct Hc1 as (Hreq1 & Htf1 & Hef1 & Hd1 & Hk1).
+  destruct (aget (mgrs s) k) as [m0|] eqn:Hmgr.
+  all: cbv iota in H.
+  all: brk.
+  all: repeat match goal with HP : process_data _ _ _ _ _ = _ |- _ =>
+         rewrite process_data_nodata in HP by congruence; injs end.
+  all: try congruence.
+  all: try solve [exfalso; match goal with HB : (0 <? m_locked (getm (bump _ (setm _ _ new_mgr)) _)) = true |- _ =>
+         rewrite getm_bump_setm_new in HB; vm_compute in HB; discriminate HB end].
+  all: try solve [exfalso; rewrite ?Htf1 in *; rewrite ?Hef1 in *;
+         repeat match goal with HB : _ && _ = true |- _ => apply andb_true_iff in HB; destruct HB end; congruence].
+  all: try solve [exfalso; revert HR; norep2;
+         repeat match goal with HU : update_and_rearm _ _ _ _ = (_, ?aev) |- context [rinfos ?aev] =>
+           rewrite (update_and_rearm_norep _ _ _ _ _ _ HU) end; cbn; discriminate].
+  all: let n := numgoals in idtac n.
+  all: match goal with Hn : new_lock ?S0 _ _ ?c' = (?s1, ?r) |- _ =>
+         destruct (queued_present _ _ _ _ _ _ Hn) as (l' & Hl' & A & C & Cn & T);
+         [ intros x Hx; apply Hw; revert Hx; clear;
+           first [ exact (fun h => h)
+                 | intros (k0 & m & q & Hm & Hq & Hi); change (mgrs (bump _ (setm s k new_mgr))) with (aset (mgrs s) k new_mgr) in Hm;
+                   rewrite aget_aset in Hm; destruct (k =? k0); [inv Hm; discriminate|exists k0, m, q; auto] ]
+         | destruct (new_lock_tr _ _ _ _ _ _ Hn) as (Hr & _);
+           exists l'; split; [rewrite <- Hr at 1; exact Hl'|]; split; [exact A|]; split; [rewrite C; first [exact Hreq1|reflexivity]|exact T] ] end.
+Qed.
